@@ -511,15 +511,20 @@ class Fuzzer:
             if state['n'] == k:
                 state['ran'] = 'started'
                 aiomysql.HOOKS.pop('delay', None)
+                self.current = fore  # commits made by the interleaved request are attributed to it, not to the background pass
                 try:
                     res = await getattr(self, 'op_' + fore)()
                     state['ran'] = 'ok' if res is not None else 'not-applicable'
                 except Exception as e:  # the interleaved request's own failure is its caller's business
                     state['ran'] = 'raised:' + type(e).__name__
+                finally:
+                    self.current = back
         aiomysql.HOOKS['delay'] = delay
+        self.current = back
         try:
             await getattr(self, 'op_' + back)()
         finally:
+            self.current = 'interleaved_background'
             if aiomysql.HOOKS.get('delay') is delay:
                 aiomysql.HOOKS.pop('delay', None)
         if state['ran'] in (None, 'not-applicable'):
